@@ -101,9 +101,9 @@ def spec_item(rec, item):
     rec.viol(f'iter_dna-raises/{base}', f'{d!r}: {type(e).__name__}: {e}', tr); bad = True
   # --- acceptance of every member, through every binding path
   for x in ref:
-    for how, fn in (('validate', lambda: spec.validate(pg.DNA(x))),
-                    ('DNA(spec=)', lambda: pg.DNA(x, spec=spec)),
-                    ('use_spec', lambda: pg.DNA(x).use_spec(spec))):
+    for how, fn in (('validate', lambda: spec.validate(pg.DNA(D.ctor(x)))),
+                    ('DNA(spec=)', lambda: pg.DNA(D.ctor(x), spec=spec)),
+                    ('use_spec', lambda: pg.DNA(D.ctor(x)).use_spec(spec))):
       r = rejects(fn)
       rec.evals += 1
       if r:
@@ -114,7 +114,7 @@ def spec_item(rec, item):
   for x in members:
     for c in D.corruptions(x):
       try:
-        cd = pg.DNA(c)
+        cd = pg.DNA(D.ctor(c))
         norm = D.dna_literal(cd)
       except Exception:  # pylint: disable=broad-except
         rec.stat('corruption:unconstructible')
@@ -125,9 +125,9 @@ def spec_item(rec, item):
       if D.valid_space(d, norm):
         raise AssertionError(f'reference models disagree on {norm!r} for {d!r}')
       seen.add(f)
-      for how, fn in (('validate', lambda: spec.validate(pg.DNA(c))),
-                      ('DNA(spec=)', lambda: pg.DNA(c, spec=spec)),
-                      ('use_spec', lambda: pg.DNA(c).use_spec(spec))):
+      for how, fn in (('validate', lambda: spec.validate(pg.DNA(D.ctor(c)))),
+                      ('DNA(spec=)', lambda: pg.DNA(D.ctor(c), spec=spec)),
+                      ('use_spec', lambda: pg.DNA(D.ctor(c)).use_spec(spec))):
         r = rejects(fn)
         rec.evals += 1
         rec.stat(f'corruption:{how}:{r or "ACCEPTED"}')
@@ -219,14 +219,14 @@ def inf_item(rec, d):
       return out
   for x in lits(d):
     assert D.valid_space(d, x), (d, x)
-    for how, fn in (('validate', lambda: spec.validate(pg.DNA(x))), ('DNA(spec=)', lambda: pg.DNA(x, spec=spec))):
+    for how, fn in (('validate', lambda: spec.validate(pg.DNA(D.ctor(x)))), ('DNA(spec=)', lambda: pg.DNA(D.ctor(x), spec=spec))):
       r = rejects(fn)
       if r:
         rec.viol(f'member-rejected:{how}/{base}', f'{d!r}: valid DNA {x!r} rejected: {r}', dict(tr, dna=x))
     for c in corrupt_floats(x):
       if D.valid_space(d, c):
         continue
-      for how, fn in (('validate', lambda: spec.validate(pg.DNA(c))), ('DNA(spec=)', lambda: pg.DNA(c, spec=spec))):
+      for how, fn in (('validate', lambda: spec.validate(pg.DNA(D.ctor(c)))), ('DNA(spec=)', lambda: pg.DNA(D.ctor(c), spec=spec))):
         try:
           r = rejects(fn)
         except Exception:  # pylint: disable=broad-except
